@@ -96,7 +96,7 @@ func (sc *scen) replayOf(kind string) *replayRec {
 
 // ---- free sectors ---------------------------------------------------------------
 
-var freeMuts = join([]string{"idx-oor", "idx-huge", "idx-dup", "abort-close", "abort-error", "unknown-cid", "replay"}, chalMuts, ptMuts, rsigMuts)
+var freeMuts = join([]string{"idx-oor", "idx-huge", "idx-dup", "abort-close", "abort-error", "unknown-cid", "renewed-cid", "replay"}, chalMuts, ptMuts, rsigMuts)
 
 func (sc *scen) doFree(mut string) *outcome {
 	w := sc.w
@@ -106,7 +106,7 @@ func (sc *scen) doFree(mut string) *outcome {
 		}
 		mut = "none"
 	}
-	ct, id, absID, key := sc.target(mut)
+	ct, id, absID, key := sc.target(&mut)
 	old := sc.revOf(ct)
 	var roots []types.Hash256
 	if ct != nil {
@@ -176,7 +176,7 @@ func (sc *scen) doFree(mut string) *outcome {
 
 // ---- append sectors -------------------------------------------------------------
 
-var appendMuts = join([]string{"empty", "abort-close", "abort-error", "unknown-cid", "replay"}, chalMuts, ptMuts, rsigMuts)
+var appendMuts = join([]string{"empty", "abort-close", "abort-error", "unknown-cid", "renewed-cid", "replay"}, chalMuts, ptMuts, rsigMuts)
 
 func (sc *scen) doAppend(mut string) *outcome {
 	w := sc.w
@@ -186,7 +186,7 @@ func (sc *scen) doAppend(mut string) *outcome {
 		}
 		mut = "none"
 	}
-	ct, id, absID, key := sc.target(mut)
+	ct, id, absID, key := sc.target(&mut)
 	old := sc.revOf(ct)
 	var roots []types.Hash256
 	if ct != nil {
@@ -247,7 +247,7 @@ func (sc *scen) doAppend(mut string) *outcome {
 // ---- fund accounts ----------------------------------------------------------------
 
 var fundMuts = join([]string{"empty", "toolong", "zero-amount", "zero-account", "exceed", "overflow",
-	"underpay-first", "underpay-last", "unknown-cid", "replay"}, rsigMuts)
+	"underpay-first", "underpay-last", "unknown-cid", "renewed-cid", "replay"}, rsigMuts)
 
 func (sc *scen) depTerm(ds []proto4.AccountDeposit) string {
 	s := make([]string, len(ds))
@@ -273,7 +273,7 @@ func (sc *scen) doFund(mut string) *outcome {
 		}
 		mut = "none"
 	}
-	ct, id, absID, key := sc.target(mut)
+	ct, id, absID, key := sc.target(&mut)
 	old := sc.revOf(ct)
 	nd := 1 + sc.r.Intn(3)
 	var deps []proto4.AccountDeposit
@@ -325,7 +325,7 @@ func (sc *scen) doFund(mut string) *outcome {
 // ---- replenish accounts / pools ----------------------------------------------------
 
 var replMuts = join([]string{"chal-other-target", "empty", "toolong", "zero-target", "zero-account", "exceed",
-	"nothing-due", "duplicate", "abort-close", "abort-error", "unknown-cid", "replay"}, chalMuts, rsigMuts)
+	"nothing-due", "duplicate", "abort-close", "abort-error", "unknown-cid", "renewed-cid", "replay"}, chalMuts, rsigMuts)
 
 func (sc *scen) doReplenish(pool bool, mut string) *outcome {
 	w := sc.w
@@ -339,7 +339,7 @@ func (sc *scen) doReplenish(pool bool, mut string) *outcome {
 		}
 		mut = "none"
 	}
-	ct, id, absID, key := sc.target(mut)
+	ct, id, absID, key := sc.target(&mut)
 	old := sc.revOf(ct)
 	na := 1 + sc.r.Intn(3)
 	perm := sc.r.Perm(len(sc.accts))
@@ -468,7 +468,7 @@ func (sc *scen) doReplenish(pool bool, mut string) *outcome {
 
 // ---- sector roots --------------------------------------------------------------------
 
-var rootsMuts = join([]string{"len0", "off-oor", "len-oor", "len-huge", "unknown-cid", "replay"}, ptMuts, rsigMuts)
+var rootsMuts = join([]string{"len0", "off-oor", "len-oor", "len-huge", "unknown-cid", "renewed-cid", "replay"}, ptMuts, rsigMuts)
 
 func (sc *scen) doRoots(mut string) *outcome {
 	w := sc.w
@@ -478,7 +478,7 @@ func (sc *scen) doRoots(mut string) *outcome {
 		}
 		mut = "none"
 	}
-	ct, id, absID, key := sc.target(mut)
+	ct, id, absID, key := sc.target(&mut)
 	old := sc.revOf(ct)
 	n := uint64(0)
 	if ct != nil {
@@ -536,7 +536,7 @@ var latestMuts = []string{"unknown-cid", "renewal-id"}
 
 func (sc *scen) doLatest(mut string) *outcome {
 	w := sc.w
-	ct, id, absID, _ := sc.target(mut)
+	ct, id, absID, _ := sc.target(&mut)
 	if mut == "renewal-id" {
 		// the id the contract will have once renewed; the host does not know it yet
 		if ct.renewed {
@@ -559,7 +559,7 @@ func (sc *scen) doLatest(mut string) *outcome {
 		if resp.Contract != ct.rev {
 			sc.failf("c08-latest-revision-stale", "RPCLatestRevision returned revision %d, the last persisted one is %d", resp.Contract.RevisionNumber, ct.rev.RevisionNumber)
 		}
-		sc.checkConsensus(ct, resp.Contract, "latest revision")
+		sc.checkConsensus(ct, resp.Contract, "latest revision", false)
 	}
 	return o
 }
@@ -581,25 +581,30 @@ func (sc *scen) doSettings() *outcome {
 
 // checkConsensus builds a revision transaction from rev and the confirmed
 // contract element and asks core whether consensus accepts it (law L5).
-func (sc *scen) checkConsensus(ct *ctr, rev types.V2FileContract, what string) {
+func (sc *scen) checkConsensus(ct *ctr, rev types.V2FileContract, what string, fresh bool) {
 	w := sc.w
-	if !ct.confirmed || ct.renewed {
+	if !ct.confirmed {
+		return
+	}
+	cs := w.cm.TipState()
+	if !fresh && (ct.renewed || cs.Index.Height >= ct.rev.ProofHeight) {
+		// an old latest revision of a closed contract: nothing new was signed
 		return
 	}
 	_, fce, err := w.ec.V2FileContractElement(ct.id)
 	if err != nil {
+		if fresh {
+			sc.failf("c08-consensus-rejects-revision", "%s: revision %d of contract %d was persisted but the contract is no longer an unresolved element of the chain state (%v)", what, rev.RevisionNumber, ct.abs, err)
+		}
 		return
 	}
 	if fce.V2FileContract.RevisionNumber >= rev.RevisionNumber {
 		return // nothing to revise: the confirmed contract is the latest revision
 	}
-	cs := w.cm.TipState()
-	if cs.Index.Height >= fce.V2FileContract.ProofHeight {
-		return // proof window open: no revision is acceptable any more, and the host makes none
-	}
+	// against the chain state as it is now: proof height reached, element resolved, ...
 	txn := types.V2Transaction{FileContractRevisions: []types.V2FileContractRevision{{Parent: fce, Revision: rev}}}
 	if err := consensus.ValidateV2Transaction(consensus.NewMidState(cs), txn); err != nil {
-		sc.failf("c08-consensus-rejects-revision", "%s: revision %d of contract %d is not acceptable to consensus: %v", what, rev.RevisionNumber, ct.abs, err)
+		sc.failf("c08-consensus-rejects-revision", "%s: revision %d of contract %d is not acceptable to consensus at height %d: %v", what, rev.RevisionNumber, ct.abs, cs.Index.Height, err)
 	}
 }
 
